@@ -57,7 +57,7 @@ def emb_of(scale):
 
 
 # ------------------------------------------------------------------ building
-def build(df, f, aux, vs):
+def build(df, f, aux, vs, filter_only=False):
     emb = emb_of(f["scale"])
     m = f["mesh"]
     dims, units = list(f["dims"]), list(f["units"])
@@ -76,7 +76,10 @@ def build(df, f, aux, vs):
     if aux["kind"] != "none":
         am = {"lo": m["lo"], "n": aux["n"], "c": [m["c"][d] * m["n"][d] // aux["n"][d] for d in range(len(m["n"]))]}
         amesh = lat.mesh_of(df, am, emb, dims=dims, units=units)
-        afield = df.Field(amesh, nvdim=1, value=fldmod.unflatten(aux["vals"], aux["n"], dtype=float))
+        # every third auxiliary field carries its values at the 1e-10 scale (a displacement in metres, say): zero stays zero and
+        # non-zero stays non-zero - "zero in the filter field" is not "small" (seeded change C20-23 used np.isclose(filter, 0))
+        ascale = 1e-10 if (filter_only and (sum(aux["n"]) + sum(m["n"]) + nv) % 3 == 0) else 1.0   # only where it serves as a filter
+        afield = df.Field(amesh, nvdim=1, value=fldmod.unflatten(aux["vals"], aux["n"], dtype=float) * ascale)
     return emb, field, afield
 
 
@@ -329,7 +332,8 @@ def exec_state(df, st, part, sid=0):
     nd = len(m["n"])
     wit = lambda **kw: dict(fld=f, aux=aux, act=core.jsonable(act), vscale=vs, **kw)
     try:
-        emb, field, afield = build(df, f, aux, vs)
+        filter_only = (kind in ("scalar", "contour") and bool(act[2])) or (kind == "lightness" and bool(act[2]) and not bool(act[3]))
+        emb, field, afield = build(df, f, aux, vs, filter_only=filter_only)
     except Exception as ex:
         part.note("construct-failed")      # building the field is the property's precondition (C01/C02), not its subject
         part.sample({"construct-failed": wit(exc=repr(ex))})
